@@ -101,6 +101,13 @@ CHECKS["C15"] = dict(
     note="Differential oracle: the implementation on canonical paths.",
 )
 
+CHECKS["C14"] = dict(
+    cat="model_checking", ref="DESIGN.md §3 C14",
+    technique="deviation-bounded exhaustive search over iteration orders: the explorer owns every unordered-iteration choice point (directory listings via Path._scandir, the `set` constructor of codebasin.finder/report/config, platform-table order), default = sorted order, all executions with <=1 (quick) / <=2 (thorough) deviating choice points run to completion on the real front ends; a schedule is replayed twice before a failure is believed",
+    text="For each input every schedule within the deviation bound is executed through codebasin (summary + duplicates), cbi-tree, cbi-cov and the in-process analysis; platform-set table, metrics, distance matrix, per-line attribution, coverage export, duplicate groups and tree must be identical in content and in serialisation order to the default schedule.",
+    note="Choice points keyed by (site, elements); sets built by displays/comprehensions would escape the hook (the PYTHONHASHSEED subprocess supplement would notice); order of duplicate groups is not compared; floats compared to 1e-12.",
+)
+
 PENDING = {}
 
 
